@@ -10,9 +10,9 @@ set_option linter.unnecessarySeqFocus false
 namespace MongoModel.Proofs.C04
 open MongoModel MongoModel.Expr MongoModel.Spec
 
-/-- `$abs $ceil $floor $trunc` (no boolean operand): the result keeps the operand's type -/
+/-- `$abs $ceil $floor $trunc` (a boolean is rejected on both sides): the result keeps the operand's type -/
 theorem unary_pure (k : String) (hk : k = "$abs" ∨ k = "$ceil" ∨ k = "$floor" ∨ k = "$trunc")
-    (a : Option Val) (hb : isBoolO a = false)
+    (a : Option Val)
     (r : Val) (hs : arith1 k a = .ok r) : unaryArithOpt k a = .ok r := by
   unfold arith1 at hs
   cases a with
@@ -28,7 +28,6 @@ theorem unary_pure (k : String) (hk : k = "$abs" ∨ k = "$ceil" ∨ k = "$floor
       simp only [nullish, Bool.false_eq_true, if_false] at hs
       rcases hk with rfl | rfl | rfl | rfl <;>
         simpa [unaryArithOpt, toPyNum, unaryArith] using hs
-    | bool b => simp [isBoolO] at hb
     | _ => simp [nullish] at hs
 
 /-! ### comparisons: `bsonCmp` is the BSON order on flat values -/
